@@ -84,6 +84,13 @@ class SetOf(Ty):
         return z3.K(self.elem.sort(), z3.BoolVal(False))
 
 
+def Bag(elem):
+    """a list of which only membership / 'some element' is used: duplicates are harmless, so no obligation"""
+    t = SetOf(elem, listlike=True)
+    t.dups_ok = True
+    return t
+
+
 def ListSet(elem):
     """a Python list modelled as the set of its members: order is abstracted (proofs hold for
     every order) and every append carries a no-duplicate obligation so the abstraction is exact"""
